@@ -12,7 +12,8 @@ use simcore::core::{catch, inject_panic, Caught, Ctx};
 use simcore::ev;
 use palette::cast::{self, ArrayCast};
 use palette::convert::{FromColorMut, FromColorUnclamped, FromColorUnclampedMut};
-use palette::{Clamp, FromColor};
+use palette::bool_mask::HasBoolMask;
+use palette::{Clamp, ClampAssign, FromColor, IsWithinBounds};
 use serde::{Deserialize, Serialize};
 use std::cell::RefCell;
 use std::collections::BTreeSet;
@@ -158,6 +159,31 @@ impl<T, const N: usize> Clamp for ProbeA<T, N> {
 impl<T, const N: usize> Clamp for ProbeB<T, N> {
     fn clamp(self) -> Self {
         self
+    }
+}
+// The other bounds-related traits a user-defined color would normally have, so that a change in palette
+// that asks for one more of them in a conversion's `where` clause (which every real color satisfies) is
+// judged by what it does and not by the probe types failing to build.
+impl<T, const N: usize> ClampAssign for ProbeA<T, N> {
+    fn clamp_assign(&mut self) {}
+}
+impl<T, const N: usize> ClampAssign for ProbeB<T, N> {
+    fn clamp_assign(&mut self) {}
+}
+impl<T, const N: usize> HasBoolMask for ProbeA<T, N> {
+    type Mask = bool;
+}
+impl<T, const N: usize> HasBoolMask for ProbeB<T, N> {
+    type Mask = bool;
+}
+impl<T, const N: usize> IsWithinBounds for ProbeA<T, N> {
+    fn is_within_bounds(&self) -> bool {
+        true
+    }
+}
+impl<T, const N: usize> IsWithinBounds for ProbeB<T, N> {
+    fn is_within_bounds(&self) -> bool {
+        true
     }
 }
 
